@@ -428,6 +428,7 @@ def run_task(task):
         key = common.short(repr([c["id"] for c in trace["calls"]]))
         stats.add("nontrivial", "h" + key)
         dig = common.short(repr(recs))
+        odig = dig
         sample = {"mode": "history", "calls": [_call_name(c) for c in trace["calls"][:8]], "ncalls": len(trace["calls"]),
                   "steps": steps, "outcomes": [r[0] if r[0] == "ok" else r[1] for r in recs[:8]]}
     else:
@@ -443,10 +444,11 @@ def run_task(task):
         stats.add("schedules", common.short(repr([(f, t, s) for _p, f, t, s in baton.switches])))
         stats.inc(f"probe.policy_{trace['policy'][0]}")
         dig = common.short(repr(results) + repr(baton.switches))
+        odig = common.short(repr(results))
         sample = {"mode": "threads", "nthreads": len(trace["clients"]), "policy": trace["policy"],
                   "calls": [[_call_name(c) for c in cl][:3] for cl in trace["clients"][:4]],
                   "switches": len(baton.switches), "first_switches": baton.switches[:6], "steps": steps}
-    return {"n": 1, "digest": dig, "violations": viols, "stats": stats.export(),
+    return {"n": 1, "digest": dig, "odigest": odig, "violations": viols, "stats": stats.export(),
             "sample": sample if task["run"] % 41 == 0 else None}
 
 
